@@ -25,9 +25,9 @@ RULE = (
     "random sequences of 2-6 (csvpath, file) jobs from the program generators (time/random functions excluded; 30% extend their lines, 30% print the headers, 10% count duplicate lines, 10% read a stack before first pushing to it) over files whose header cells "
     "contain quotes, delimiters, spaces and newlines; each job's result tuple (lines, variables, printouts, errors, validity, counters, headers, "
     "line count) in-sequence vs fresh-process cold-cache twin vs fresh-process warm-cache vs direct CsvPath() vs repeat; plus the sub-scenario "
-    "'same path, new bytes'. Non-trivial: a sequence of >= 2 jobs; distinct = distinct (program skeletons, header shapes)."
+    "'same path, new bytes' (different size, or the same size 0.4 s later within one clock second). Non-trivial: a sequence of >= 2 jobs; distinct = distinct (program skeletons, header shapes)."
 )
-ASSUMPTIONS = ["files are content-addressed (<sha1>.csv) except in the labelled same-path sub-scenario", "each fresh process costs ~0.4 s; sequences are therefore few but each is compared five ways"]
+ASSUMPTIONS = ["files are content-addressed (<sha1>.csv) except in the labelled same-path sub-scenarios", "the sandbox file system keeps nanosecond mtimes (os.utime ns=); on a coarser one the same-second rewrite is indistinguishable by design and the sub-scenario is skipped and counted", "each fresh process costs ~0.4 s; sequences are therefore few but each is compared five ways"]
 
 HOSTILE_HEADERS = ['; name', ', qty ', 'a |', '` t', '"q', 'a,b', ' sp ', 'two\nlines', 'semi;colon', "it's", '""', 'x|y', 'tab\there', 'é', '`tick`', '', 'c d']
 
@@ -181,6 +181,11 @@ def run_case(case, agg):
         with open(os.path.join(sdir, name), "w", newline="") as f:
             f.write(newtext)
         os.utime(os.path.join(sdir, name), ns=(t0 + 400_000_000, t0 + 400_000_000))
+        if os.stat(os.path.join(sdir, name)).st_mtime_ns != t0 + 400_000_000:
+            # a file system that does not keep sub-second mtimes: the two versions are indistinguishable by design
+            agg.count("same_size_rewrite_skipped_coarse_mtime")
+            shutil.rmtree(base, ignore_errors=True)
+            return None, None
         stale = run_process([j0], sdir, agg)[0]
         fdir = os.path.join(base, "samesize-fresh")
         os.makedirs(fdir)
